@@ -1,4 +1,8 @@
+mod conc;
+mod list;
 mod pure;
+mod queue;
+mod sched;
 mod util;
 
 use util::arg;
@@ -13,6 +17,28 @@ fn main() {
         "pure" => {
             let (lines, props, fails) = pure::run(&out, seed, thorough);
             println!("pure: lines={} property_checks={} property_failures={}", lines, props, fails);
+        }
+        "queue" | "list" => {
+            let n: usize = arg(&args, "--cases").and_then(|s| s.parse().ok()).unwrap_or(if thorough { 20000 } else { 300 });
+            let mut o = util::Out::create(&out);
+            let mut rng = util::Rng::new(seed);
+            let mut fails = 0;
+            for _ in 0..n {
+                let (line, mon) = if cmd == "queue" {
+                    let p = queue::gen_program(&mut rng, thorough);
+                    queue::run_case(&p, &mut rng, None)
+                } else {
+                    let p = list::gen_program(&mut rng, thorough);
+                    list::run_case(&p, &mut rng, None)
+                };
+                o.line(&line);
+                for m in mon {
+                    fails += 1;
+                    o.line(&m);
+                }
+            }
+            let lines = o.finish();
+            println!("{}: cases={} lines={} monitor_failures={}", cmd, n, lines, fails);
         }
         _ => {
             eprintln!("usage: circ-verif-harness <pure> [--seed N] [--tier quick|thorough] [--out FILE]");
